@@ -16,6 +16,7 @@ fn weights(merge: bool) -> Weights {
 
 fn add<S: Subject>(jobs: &mut Vec<Box<dyn JobT>>, disc: Disc, ex: &[Class], eq_ex: &'static [Class], q: u64, t: u64, floor: f64) {
     let pc = PlanCfg::new(weights(S::MERGE)).steps(6, 30).observers(0, 1);
+    let pc = pc.long_share(S::LONG);
     let ctx = Ctx::new(disc).ex(ex);
     let label = format!("{}/{:?}/duplicates+stale states", S::name(), disc);
     jobs.push(
@@ -30,11 +31,15 @@ fn add<S: Subject>(jobs: &mut Vec<Box<dyn JobT>>, disc: Disc, ex: &[Class], eq_e
 pub fn property() -> Property {
     let mut jobs: Vec<Box<dyn JobT>> = Vec::new();
     add::<SOrswot>(&mut jobs, Disc::Causal, &[], &[], 18000, 200_000, 0.03);
+    add::<SOrswotBig>(&mut jobs, Disc::Causal, &[], &[], 4500, 50000, 0.015);
     add::<SOrswot>(&mut jobs, Disc::Fifo, &[], &[], 18000, 200_000, 0.03);
+    add::<SOrswotBig>(&mut jobs, Disc::Fifo, &[], &[], 4500, 50000, 0.015);
     add::<SMVReg>(&mut jobs, Disc::Any, &[], &[], 18000, 200_000, 0.03);
     add::<MapOrswot>(&mut jobs, Disc::Causal, &[Class::T1], &[Class::T1, Class::T4], 18000, 200_000, 0.03);
+    add::<MapOrswotBig>(&mut jobs, Disc::Causal, &[Class::T1], &[Class::T1, Class::T4], 4500, 50000, 0.015);
     add::<MapMapOrswot>(&mut jobs, Disc::Causal, &[Class::T1], &[Class::T1, Class::T4], 12000, 100_000, 0.03);
     add::<MapMVReg>(&mut jobs, Disc::Causal, &[Class::T1, Class::T2, Class::T5], &[Class::T1, Class::T2, Class::T2b, Class::T5], 18000, 200_000, 0.03);
+    add::<MapMVRegBig>(&mut jobs, Disc::Causal, &[Class::T1, Class::T2, Class::T5], &[Class::T1, Class::T2, Class::T2b, Class::T5], 4500, 50000, 0.015);
     add::<MapMapMVReg>(&mut jobs, Disc::Causal, &[Class::T1, Class::T2, Class::T5], &[Class::T1, Class::T2, Class::T2b, Class::T4, Class::T5], 12000, 100_000, 0.03);
     add::<SList>(&mut jobs, Disc::Causal, &[], &[], 12000, 100_000, 0.03);
     add::<SMerkle>(&mut jobs, Disc::Any, &[], &[], 12000, 100_000, 0.03);
